@@ -1,5 +1,12 @@
-(* C10 -- soundness of the effect checker (noninterference).  Lemmas only.
-   Part 1: boolean reflection, the relation between two worlds, simulation of the events other than calls. *)
+(* C10 -- soundness of the effect checker of Model/Effects.v (noninterference).  Lemmas only.
+   Part 1: boolean reflection; the relation Rel between two worlds (same history, same generators created by the call,
+           same state of the generator objects in P, dictionaries confined to their universe); step_sim: every event
+           other than a call that the checker accepts is simulated in the second world.
+   Part 2: calls (the callee frame instantiates the context the checker recorded), and the simulation Sim n for every
+           command, by induction on the fuel and on the command (sim_step, sim_all).
+   Part 3: theorems about the entry contexts of exported functions: noninterference, noninterference_closed,
+           integer_seed_deterministic, generator_object_only, and their api_* forms whose premises are two closed
+           boolean computations (check_all = true, names_unique = true). *)
 From Coq Require Import String List Bool Arith ZArith Lia.
 From TV Require Import Model.Effects.
 Import ListNotations.
@@ -222,6 +229,7 @@ Section Sim.
   Qed.
 
   Ltac inv H := inversion H; subst; clear H.
+  Ltac out := unfold untouched_outside; cbn; repeat split; reflexivity.
   Ltac csplit := unfold Concl; split; [|split; [|split; [|split; [|split]]]].
 
   (* a step that leaves the dictionaries alone and the frame typed *)
@@ -233,6 +241,10 @@ Section Sim.
     - intros l k _. rewrite Ha, Hb. auto.
     - intros _. exists cl. split; [assumption|]. intros l k Hm Hk. rewrite Ha, Hb. auto.
   Qed.
+
+  Ltac nodd cl := apply concl_nodd with (cl := cl);
+    [ try assumption | try assumption | try assumption | reflexivity | reflexivity | try solve [unfold untouched_outside; cbn; repeat split; reflexivity] | assumption
+    | try assumption; reflexivity ].
 
   Lemma concl_exc env de fe r a b fr f : f <> FN ->
     typed env de fe fr -> frame_ok fr -> Rel a b -> Concl env de fe r a b f fr a b.
@@ -250,11 +262,10 @@ Section Sim.
   Proof.
     intros Ht Ho HR Hag Hp Hx. unfold new_gen. cbn [fst snd].
     exists (set_lg Sg V b (lg b ++ [g])). rewrite (r_lg _ _ HR). split; [reflexivity|].
-    eapply concl_nodd; eauto.
+    nodd cl.
     - apply typed_set_senv; [assumption|]. exact Hx.
     - apply ok_set_senv; [assumption|exact I].
     - rewrite <- (r_lg _ _ HR). apply Rel_set_lg. assumption.
-    - apply outside_refl.
   Qed.
 
   Definition plain (e : event) : Prop := match e with Call _ _ _ _ _ | CallParam _ _ => False | _ => True end.
@@ -288,14 +299,13 @@ Section Sim.
           unfold new_gen in *. cbn [fst snd] in *. inv Hst. exists b'. split; assumption.
         * (* VGenLoc *)
           apply oaval_eqb_eq in Hck. inv Hst. exists b. split; [reflexivity|].
-          eapply concl_nodd; eauto.
-          -- apply typed_set_senv; assumption. -- apply ok_set_senv; [assumption|exact I]. -- apply outside_refl.
+          nodd cl.
+          -- apply typed_set_senv; assumption. -- apply ok_set_senv; [assumption|exact I].
         * (* VGenExt *)
           apply oaval_eqb_eq in Hck. inv Hst. exists b. split; [reflexivity|].
-          eapply concl_nodd; eauto.
+          nodd cl.
           -- apply typed_set_senv; assumption.
           -- apply ok_set_senv; [assumption|]. apply (proj1 Ho y). apply lookup_In. assumption.
-          -- apply outside_refl.
       + inv Hst. exists b. split; [reflexivity|]. apply concl_exc; auto. discriminate.
     - discriminate.
     - (* MkGenConst *)
@@ -304,7 +314,7 @@ Section Sim.
                   fr a b x (init z) cl) as [b' [E C]]; auto.
       unfold new_gen in *. cbn [fst snd] in *. inv Hst. exists b'. split; assumption.
     - (* RandPrim *)
-      inv Hst. exists b. split; [reflexivity|]. eapply concl_nodd; eauto. apply outside_refl.
+      inv Hst. exists b. split; [reflexivity|]. nodd cl.
     - discriminate.
     - (* DrawFrom *)
       destruct (lookup (senv fr) g) as [v|] eqn:Lg.
@@ -312,15 +322,14 @@ Section Sim.
         destruct v; cbn [abs_val] in *; try discriminate.
         * rewrite <- Hl. destruct (nth_error (lg a) i) as [gi|] eqn:Ei.
           -- rewrite <- Hh. destruct (draw s (hist a) gi) as [v gi'] eqn:Ed. inv Hst.
-             eexists. split; [reflexivity|]. eapply concl_nodd; eauto.
-             ++ apply Rel_obsv. apply Rel_set_lg. assumption.
-             ++ apply outside_refl.
+             eexists. split; [reflexivity|]. nodd cl.
+             apply Rel_obsv. apply Rel_set_lg. assumption.
           -- inv Hst. exists b. split; [reflexivity|]. apply concl_exc; auto. discriminate.
         * assert (Pk : P k) by (apply (proj1 Ho g (VGenExt k)); apply lookup_In; assumption).
           rewrite <- Hh, <- (r_ext _ _ HR k Pk). destruct (draw s (hist a) (ext a k)) as [v g'] eqn:Ed. inv Hst.
-          eexists. split; [reflexivity|]. eapply concl_nodd; eauto.
+          eexists. split; [reflexivity|]. nodd cl.
           ++ apply Rel_obsv. apply Rel_set_ext. assumption.
-          ++ repeat split; cbn; auto. intros j Hj. destruct (Nat.eqb j k) eqn:E; [|reflexivity].
+          ++ unfold untouched_outside; cbn; repeat split; auto. intros j Hj. destruct (Nat.eqb j k) eqn:E; [|reflexivity].
              apply Nat.eqb_eq in E. subst. contradiction.
       + inv Hst. exists b. split; [reflexivity|]. apply concl_exc; auto. discriminate.
     - (* Reset *)
@@ -335,13 +344,13 @@ Section Sim.
           apply mems_In in E2. apply Hks in E2. congruence. }
         csplit; try assumption; cbn.
         * apply Rel_set_dd; [assumption| |]; apply Hc; [apply (r_c1 _ _ HR) | apply (r_c2 _ _ HR)].
-        * intros l' k' Hk E. rewrite !reset_keys_spec, Hh. destruct (dloc_eqb l' l && mems k' ks); auto.
-        * apply outside_refl.
-        * intros _. eexists. split; [reflexivity|]. intros l' k' Hm Hk. rewrite !reset_keys_spec, Hh.
+        * intros l' k' Hk E. cbn. rewrite !reset_keys_spec, Hh. destruct (dloc_eqb l' l && mems k' ks); auto.
+        * out.
+        * intros _. eexists. split; [reflexivity|]. intros l' k' Hm Hk. cbn. rewrite !reset_keys_spec, Hh.
           destruct (dloc_eqb l' l && mems k' ks) eqn:E; [reflexivity|].
           apply addks_spec in Hm. destruct Hm as [Hm|[H1 H2]]; [apply Hag; assumption|]. cbn in H1, H2. subst.
           rewrite dloc_eqb_refl in E. apply mems_In in H2. rewrite H2 in E. discriminate.
-      + inv Hst. exists b. split; [reflexivity|]. eapply concl_nodd; eauto. apply outside_refl.
+      + inv Hst. exists b. split; [reflexivity|]. nodd cl.
     - (* Read *)
       rewrite (loc_of_typed _ _ _ _ d Ht) in *. destruct (aloc_of de d) as [l|].
       + cbn [cond rok rpost] in *. inv Hst.
@@ -349,23 +358,23 @@ Section Sim.
         { apply orb_true_iff in Hck. destruct Hck as [H|H].
           - apply andb_true_iff in H. destruct H as [H1 H2]. apply Hag; [assumption|]. destruct (timing k); [discriminate|reflexivity].
           - apply negb_true_iff in H. rewrite (r_c1 _ _ HR), (r_c2 _ _ HR); auto. }
-        rewrite E. eexists. split; [reflexivity|]. eapply concl_nodd; eauto.
-        * apply Rel_obsv; assumption. * apply outside_refl.
-      + inv Hst. exists b. split; [reflexivity|]. eapply concl_nodd; eauto. apply outside_refl.
+        rewrite E. eexists. split; [reflexivity|]. nodd cl.
+        apply Rel_obsv; assumption.
+      + inv Hst. exists b. split; [reflexivity|]. nodd cl.
     - (* LogRead *)
-      inv Hst. exists b. split; [reflexivity|]. eapply concl_nodd; eauto. apply outside_refl.
+      inv Hst. exists b. split; [reflexivity|]. nodd cl.
     - (* Write *)
       rewrite (loc_of_typed _ _ _ _ d Ht) in *. destruct (aloc_of de d) as [l|].
       + cbn [cond rok rpost] in *. inv Hst. eexists. split; [reflexivity|].
         csplit; try assumption; cbn.
         * apply Rel_set_dd; [assumption| |]; apply upd_dd_confined; auto; [apply (r_c1 _ _ HR) | apply (r_c2 _ _ HR)].
-        * intros l' k' Hk E. unfold upd_dd. rewrite Hh. destruct (dloc_eqb l' l && String.eqb k' k); auto.
-        * apply outside_refl.
-        * intros _. eexists. split; [reflexivity|]. intros l' k' Hm Hk. unfold upd_dd. rewrite Hh.
+        * intros l' k' Hk E. cbn. unfold upd_dd. rewrite Hh. destruct (dloc_eqb l' l && String.eqb k' k); auto.
+        * out.
+        * intros _. eexists. split; [reflexivity|]. intros l' k' Hm Hk. cbn. unfold upd_dd. rewrite Hh.
           destruct (dloc_eqb l' l && String.eqb k' k) eqn:E; [reflexivity|].
           apply addk_spec in Hm. destruct Hm as [Hm|Hm]; [apply Hag; assumption|]. inv Hm.
           rewrite dloc_eqb_refl, String.eqb_refl in E. discriminate.
-      + inv Hst. exists b. split; [reflexivity|]. eapply concl_nodd; eauto. apply outside_refl.
+      + inv Hst. exists b. split; [reflexivity|]. nodd cl.
     - (* WriteT *)
       rewrite (loc_of_typed _ _ _ _ d Ht) in *. destruct (aloc_of de d) as [l|].
       + cbn [cond rok rpost] in *. apply andb_true_iff in Hck. destruct Hck as [Hu Htk].
@@ -378,26 +387,26 @@ Section Sim.
           - rewrite andb_false_r. assumption. }
         csplit; try assumption; cbn.
         * apply Rel_set_dd; [apply Rel_set_ck; assumption| |]; apply upd_dd_confined; auto; [apply (r_c1 _ _ HR) | apply (r_c2 _ _ HR)].
-        * intros l' k' Hk E. apply Hne; assumption.
-        * apply outside_refl.
-        * intros _. eexists. split; [reflexivity|]. intros l' k' Hm Hk. apply Hne; [assumption|]. apply Hag; assumption.
-      + inv Hst. exists b. split; [reflexivity|]. eapply concl_nodd; eauto. apply outside_refl.
+        * intros l' k' Hk E. cbn. apply Hne; assumption.
+        * out.
+        * intros _. eexists. split; [reflexivity|]. intros l' k' Hm Hk. cbn. apply Hne; [assumption|]. apply Hag; assumption.
+      + inv Hst. exists b. split; [reflexivity|]. nodd cl.
     - (* WriteAny *)
       rewrite (loc_of_typed _ _ _ _ d Ht) in *. destruct (aloc_of de d) as [l|]; [discriminate|].
-      inv Hst. exists b. split; [reflexivity|]. eapply concl_nodd; eauto. apply outside_refl.
+      inv Hst. exists b. split; [reflexivity|]. nodd cl.
     - (* Clear *)
       rewrite (loc_of_typed _ _ _ _ d Ht) in *. destruct (aloc_of de d) as [l|].
       + cbn [rok rpost] in *. inv Hst. eexists. split; [reflexivity|].
         csplit; try assumption; cbn.
         * apply Rel_set_dd; [assumption| |]; intros l' k' Hk; unfold upd_loc; destruct (dloc_eqb l' l); auto;
             [apply (r_c1 _ _ HR) | apply (r_c2 _ _ HR)]; assumption.
-        * intros l' k' Hk E. unfold upd_loc. destruct (dloc_eqb l' l); auto.
-        * apply outside_refl.
-        * intros _. eexists. split; [reflexivity|]. intros l' k' Hm Hk. unfold upd_loc.
+        * intros l' k' Hk E. cbn. unfold upd_loc. destruct (dloc_eqb l' l); auto.
+        * out.
+        * intros _. eexists. split; [reflexivity|]. intros l' k' Hm Hk. cbn. unfold upd_loc.
           destruct (dloc_eqb l' l) eqn:E; [reflexivity|].
           apply addks_spec in Hm. destruct Hm as [Hm|[H1 H2]]; [apply Hag; assumption|]. cbn in H1. subst.
           rewrite dloc_eqb_refl in E. discriminate.
-      + inv Hst. exists b. split; [reflexivity|]. eapply concl_nodd; eauto. apply outside_refl.
+      + inv Hst. exists b. split; [reflexivity|]. nodd cl.
     - (* ReadAll *)
       rewrite (loc_of_typed _ _ _ _ d Ht) in *. destruct (aloc_of de d) as [l|].
       + cbn [cond rok rpost] in *. inv Hst.
@@ -405,12 +414,621 @@ Section Sim.
         { apply map_ext_in. intros k Hk. apply Hag.
           - exact (proj1 (forallb_forall _ _) Hck k Hk).
           - unfold nontiming in Hk. apply filter_In in Hk. destruct Hk as [_ Hk]. destruct (timing k); [discriminate|reflexivity]. }
-        rewrite E. eexists. split; [reflexivity|]. eapply concl_nodd; eauto.
-        * apply Rel_obsv; assumption. * apply outside_refl.
-      + inv Hst. exists b. split; [reflexivity|]. eapply concl_nodd; eauto. apply outside_refl.
+        rewrite E. eexists. split; [reflexivity|]. nodd cl.
+        apply Rel_obsv; assumption.
+      + inv Hst. exists b. split; [reflexivity|]. nodd cl.
     - (* Clock *)
-      inv Hst. eexists. split; [reflexivity|]. eapply concl_nodd; eauto.
-      + apply Rel_set_ck; assumption. + apply outside_refl.
+      inv Hst. eexists. split; [reflexivity|]. nodd cl.
+      apply Rel_set_ck; assumption.
     - discriminate.
   Qed.
+
+  (* ---------------------------------------------------------------------------------------------- *)
+  (* calls: the callee frame is an instance of the context recorded by the checker                    *)
+  (* ---------------------------------------------------------------------------------------------- *)
+
+  Lemma eval_sb_abs env de fe fr sb : typed env de fe fr -> forall se,
+    eval_sb fr sb = Some se -> map (fun xv => (fst xv, abs_val (snd xv))) se = aeval_sb env sb.
+  Proof.
+    intros Ht. induction sb as [|[p a] r IH]; cbn [eval_sb]; intros se H.
+    - inv H. reflexivity.
+    - destruct (eval_sarg fr a) as [v|] eqn:Ea; [|discriminate].
+      destruct (eval_sb fr r) as [l|] eqn:Er; [|discriminate]. inv H. cbn. rewrite (IH l eq_refl).
+      unfold aeval_sb. cbn. f_equal. f_equal.
+      destruct a; cbn in *; try (inv Ea; reflexivity). rewrite (proj1 Ht _ _ Ea). reflexivity.
+  Qed.
+
+  Lemma eval_sb_ok fr sb : frame_ok fr -> forall se, eval_sb fr sb = Some se -> forall x v, In (x, v) se -> sval_ok v.
+  Proof.
+    intros Ho. induction sb as [|[p a] r IH]; cbn [eval_sb]; intros se H x v Hin.
+    - inv H. contradiction.
+    - destruct (eval_sarg fr a) as [w|] eqn:Ea; [|discriminate].
+      destruct (eval_sb fr r) as [l|] eqn:Er; [|discriminate]. inv H. destruct Hin as [Hin|Hin].
+      + inv Hin. destruct a; cbn in Ea; try (inv Ea; exact I). apply (proj1 Ho x0). apply lookup_In. assumption.
+      + eapply IH; eauto.
+  Qed.
+
+  Lemma eval_farg_abs env de fe fr g p a c : typed env de fe fr ->
+    eval_farg fr g p a = Some c -> abs_fn c = aeval_farg env fe g p a.
+  Proof.
+    intros Ht H. destruct a; cbn in *.
+    - inv H. rewrite <- (proj2 (proj2 Ht)), lookup_map. destruct (lookup (fenv fr) p0); reflexivity.
+    - destruct (eval_sb fr cap) as [l|] eqn:El; [|discriminate]. inv H. cbn.
+      rewrite (eval_sb_abs _ _ _ _ _ Ht _ El). reflexivity.
+    - inv H. destruct (lookup (fcallables g) p); reflexivity.
+    - inv H. reflexivity.
+    - inv H. reflexivity.
+  Qed.
+
+  Lemma eval_farg_ok fr g p a c : frame_ok fr -> eval_farg fr g p a = Some c -> cfn_ok c.
+  Proof.
+    intros Ho H. destruct a; cbn in *.
+    - inv H. destruct (lookup (fenv fr) p0) as [c'|] eqn:E; [|exact I]. apply (proj2 Ho p0). apply lookup_In. assumption.
+    - destruct (eval_sb fr cap) as [l|] eqn:El; [|discriminate]. inv H. cbn. eapply eval_sb_ok; eauto.
+    - inv H. destruct (lookup (fcallables g) p) as [d|]; [|exact I]. destruct d; cbn; auto. intros x v [].
+    - inv H. exact I.
+    - inv H. exact I.
+  Qed.
+
+  Lemma eval_fb_abs env de fe fr g fb : typed env de fe fr -> forall l,
+    eval_fb fr g fb = Some l ->
+    map (fun pc => (fst pc, abs_fn (snd pc))) l = map (fun pa => (fst pa, aeval_farg env fe g (fst pa) (snd pa))) fb.
+  Proof.
+    intros Ht. induction fb as [|[p a] r IH]; cbn [eval_fb]; intros l H.
+    - inv H. reflexivity.
+    - destruct (eval_farg fr g p a) as [c|] eqn:Ea; [|discriminate].
+      destruct (eval_fb fr g r) as [l'|] eqn:Er; [|discriminate]. inv H. cbn. rewrite (IH l' eq_refl).
+      rewrite (eval_farg_abs _ _ _ _ _ _ _ _ Ht Ea). reflexivity.
+  Qed.
+
+  Lemma eval_fb_ok fr g fb : frame_ok fr -> forall l, eval_fb fr g fb = Some l -> forall p c, In (p, c) l -> cfn_ok c.
+  Proof.
+    intros Ho. induction fb as [|[p a] r IH]; cbn [eval_fb]; intros l H q c Hin.
+    - inv H. contradiction.
+    - destruct (eval_farg fr g p a) as [c'|] eqn:Ea; [|discriminate].
+      destruct (eval_fb fr g r) as [l'|] eqn:Er; [|discriminate]. inv H. destruct Hin as [Hin|Hin].
+      + inv Hin. eapply eval_farg_ok; eauto.
+      + eapply IH; eauto.
+  Qed.
+
+  Lemma callee_matches env de fe fr g sb db fb frc cl f : typed env de fe fr ->
+    callee_frame fr g sb db fb = Some frc ->
+    frame_matches (mkctx f (aeval_sb env sb)
+                     (map (fun pa => (fst pa, aeval_darg de (fname g) (fst pa) (snd pa))) db)
+                     (map (fun pa => (fst pa, aeval_farg env fe g (fst pa) (snd pa))) fb) cl) frc.
+  Proof.
+    intros Ht H. unfold callee_frame in H.
+    destruct (eval_sb fr sb) as [se|] eqn:Es; [|discriminate].
+    destruct (eval_fb fr g fb) as [l|] eqn:Ef; [|discriminate]. inv H.
+    unfold frame_matches. cbn. split; [|split].
+    - eapply eval_sb_abs; eauto.
+    - apply map_ext. intros [p a]. cbn. f_equal. destruct a; cbn; try reflexivity. eapply loc_of_typed; eauto.
+    - eapply eval_fb_abs; eauto.
+  Qed.
+
+  Lemma callee_ok fr g sb db fb frc : frame_ok fr -> callee_frame fr g sb db fb = Some frc -> frame_ok frc.
+  Proof.
+    intros Ho H. unfold callee_frame in H.
+    destruct (eval_sb fr sb) as [se|] eqn:Es; [|discriminate].
+    destruct (eval_fb fr g fb) as [l|] eqn:Ef; [|discriminate]. inv H. split; cbn.
+    - eapply eval_sb_ok; eauto. - eapply eval_fb_ok; eauto.
+  Qed.
+
+  Lemma matches_typed e fr env : frame_matches e fr -> entry_covered (cse e) env = true -> typed env (cde e) (cfe e) fr.
+  Proof.
+    intros [H1 [H2 H3]] Hc. split; [|split; assumption].
+    intros x v Hx. assert (Hl : lookup (cse e) x = Some (abs_val v)) by (rewrite <- H1, lookup_map, Hx; reflexivity).
+    unfold entry_covered in Hc. pose proof (proj1 (forallb_forall _ _) Hc _ (lookup_In _ _ _ Hl)) as H. cbn in H.
+    apply oaval_eqb_eq in H. congruence.
+  Qed.
+
+  (* ---------------------------------------------------------------------------------------------- *)
+  (* the simulation                                                                                   *)
+  (* ---------------------------------------------------------------------------------------------- *)
+
+  Variable t : list actx.
+  Hypothesis Htbl : tbl_ok U api t = true.
+
+  Lemma tbl_in e : In e t -> rok (chk_entry U api e) = true /\ forall c, In c (rcalls (chk_entry U api e)) -> In c t.
+  Proof.
+    intros He. unfold tbl_ok in Htbl. pose proof (proj1 (forallb_forall _ _) Htbl e He) as H. cbn in H.
+    apply andb_true_iff in H. destruct H as [H1 H2]. split; [assumption|].
+    intros c Hc. apply memc_In. exact (proj1 (forallb_forall _ _) H2 c Hc).
+  Qed.
+
+  Lemma exec_S n c fr st : exec (Datatypes.S n) c fr st =
+    match c with
+    | Skip => Some (FN, fr, st)
+    | Ev (Call s f sb db fb) =>
+        match find_fn api f with
+        | None => Some (FExc, fr, st)
+        | Some g =>
+            match callee_frame fr g sb db fb with
+            | None => Some (FExc, fr, st)
+            | Some fr' =>
+                match exec n (fbody g) fr' (obsv st (OCall s)) with
+                | None => None
+                | Some (r, _, st') => Some (after_call r, fr, st')
+                end
+            end
+        end
+    | Ev (CallParam s p) =>
+        match lookup (fenv fr) p with
+        | Some CFUser => Some (FN, fr, obsv st (OCall s))
+        | Some (CFClos c cap) =>
+            match find_fn api c with
+            | None => Some (FExc, fr, st)
+            | Some g =>
+                match exec n (fbody g) (mkframe cap [] []) (obsv st (OCall s)) with
+                | None => None
+                | Some (r, _, st') => Some (after_call r, fr, st')
+                end
+            end
+        | Some (CFGlob s') => Some (FN, fr, global_draw Sg V draw s' st)
+        | Some CFUnknown | None => Some (FN, fr, global_draw Sg V draw s st)
+        end
+    | Ev e => Some (step e fr st)
+    | Seq a b => match exec (Datatypes.S n) a fr st with
+                 | Some (FN, fr', st') => exec (Datatypes.S n) b fr' st'
+                 | r => r
+                 end
+    | If s a b => let d := decide s (hist st) in
+                  if d then exec (Datatypes.S n) a fr (obsv st (ODec d)) else exec (Datatypes.S n) b fr (obsv st (ODec d))
+    | Loop s body =>
+        let d := decide s (hist st) in
+        if d then
+          match exec (Datatypes.S n) body fr (obsv st (ODec d)) with
+          | Some (FN, fr', st') | Some (FCont, fr', st') => exec n (Loop s body) fr' st'
+          | Some (FBrk, fr', st') => Some (FN, fr', st')
+          | r => r
+          end
+        else Some (FN, fr, obsv st (ODec d))
+    | Return => Some (FRet, fr, st)
+    | Break => Some (FBrk, fr, st)
+    | Continue => Some (FCont, fr, st)
+    | Raise => Some (FExc, fr, st)
+    | Try b h => match exec (Datatypes.S n) b fr st with
+                 | Some (FExc, fr', st') => exec (Datatypes.S n) h fr' st'
+                 | r => r
+                 end
+    end.
+  Proof. destruct c; reflexivity. Qed.
+
+  (* entering a context of the table *)
+  Definition Enter (n : nat) : Prop := forall e g fr a b f fr' a',
+    In e t -> find_fn api (cf e) = Some g -> frame_matches e fr -> frame_ok fr -> Rel a b -> agree (ccl e) a b ->
+    exec n (fbody g) fr a = Some (f, fr', a') ->
+    exists b', exec n (fbody g) fr b = Some (f, fr', b') /\ Rel a' b' /\ stable a b a' b' /\ outside a a'.
+
+  Definition Sim (n : nat) : Prop := forall c env de fe cl fr a b f fr' a',
+    rok (chk U api env de fe c (Some cl)) = true ->
+    (forall e, In e (rcalls (chk U api env de fe c (Some cl))) -> In e t) ->
+    typed env de fe fr -> frame_ok fr -> Rel a b -> agree cl a b ->
+    exec n c fr a = Some (f, fr', a') ->
+    exists b', exec n c fr b = Some (f, fr', b') /\ Concl env de fe (chk U api env de fe c (Some cl)) a b f fr' a' b'.
+
+  Lemma Sim_Enter n : Sim n -> Enter n.
+  Proof.
+    intros HS e g fr a b f fr' a' He Hg Hm Ho HR Hag Hex.
+    destruct (tbl_in e He) as [Hok Hcalls]. unfold chk_entry in Hok, Hcalls. rewrite Hg in Hok, Hcalls.
+    cbn [rok rcalls] in Hok, Hcalls. apply andb_true_iff in Hok. destruct Hok as [Hcov Hok].
+    destruct (HS _ _ _ _ _ _ _ _ _ _ _ Hok Hcalls (matches_typed _ _ _ Hm Hcov) Ho HR Hag Hex) as [b' [Eb C]].
+    exists b'. split; [assumption|]. destruct C as [_ [_ [C1 [C2 [C3 _]]]]]. auto.
+  Qed.
+
+  Lemma Post_keep env de fe r a b f fr a' b' cl :
+    typed env de fe fr -> frame_ok fr -> Rel a' b' -> stable a b a' b' -> outside a a' -> agree cl a b ->
+    rpost r = Some cl -> Concl env de fe r a b f fr a' b'.
+  Proof.
+    intros. csplit; try assumption. intros _. exists cl. split; [assumption|]. eapply agree_stable; eauto.
+  Qed.
+
+  Lemma Concl_noFN env de fe r r' a b f fr a' b' : f <> FN -> Concl env de fe r a b f fr a' b' -> Concl env de fe r' a b f fr a' b'.
+  Proof. intros Hf [C1 [C2 [C3 [C4 [C5 _]]]]]. csplit; try assumption. intros; contradiction. Qed.
+
+  Lemma agree_join_l x o z a b : agree x a b -> join (Some x) o = Some z -> agree z a b.
+  Proof.
+    intros H E. destruct o as [y|]; cbn in E; inv E; [|assumption].
+    eapply agree_sub; [|exact H]. intros k Hk. apply inter_spec in Hk. apply Hk.
+  Qed.
+  Lemma agree_join_r y o z a b : agree y a b -> join o (Some y) = Some z -> agree z a b.
+  Proof.
+    intros H E. destruct o as [x|]; cbn in E; inv E; [|assumption].
+    eapply agree_sub; [|exact H]. intros k Hk. apply inter_spec in Hk. apply Hk.
+  Qed.
+
+  Lemma sim_step n : Sim n -> Sim (Datatypes.S n).
+  Proof.
+    intros IHn. pose proof (Sim_Enter n IHn) as HE.
+    intros c. induction c as [|e|c1 IH1 c2 IH2|s c1 IH1 c2 IH2|s c IH| | | | |c1 IH1 c2 IH2];
+      intros env de fe cl fr a b f fr' a' Hok Hcalls Ht Ho HR Hag Hex; rewrite exec_S in Hex |- *.
+    - (* Skip *)
+      inv Hex. exists b. split; [reflexivity|]. cbn [chk]. nodd cl.
+    - (* Ev *)
+      cbn [chk] in *. destruct e;
+        try (match goal with |- context [step ?e _ _] =>
+               destruct (step_sim e env de fe cl fr a b f fr' a' I Hok Ht Ho HR Hag) as [b' [Eb C]];
+               [congruence | exists b'; split; [congruence | exact C]] end).
+      + (* Call *)
+        cbn [chk_event] in *. destruct (find_fn api f0) as [g|] eqn:Hf; [|discriminate]. cbn [rok rcalls rpost] in *.
+        destruct (callee_frame fr g sb db fb) as [frc|] eqn:Hcf.
+        * destruct (exec n (fbody g) frc (obsv a (OCall s))) as [[[r frr] a1]|] eqn:Ea; [|discriminate]. inv Hex.
+          pose proof (callee_matches _ _ _ _ _ _ _ _ _
+                        (restrict U cl (map (fun pa => (fst pa, aeval_darg de (fname g) (fst pa) (snd pa))) db)) f0 Ht Hcf) as Hm.
+          destruct (HE _ g frc (obsv a (OCall s)) (obsv b (OCall s)) r frr a' (Hcalls _ (or_introl eq_refl)) Hf Hm
+                      (callee_ok _ _ _ _ _ _ Ho Hcf) (Rel_obsv _ _ _ HR)) as [b' [Eb [C1 [C2 C3]]]]; [|assumption|].
+          { cbn [ccl]. eapply agree_sub; [|exact Hag]. intros x Hx. eapply restrict_sub; eauto. }
+          rewrite Eb. exists b'. split; [reflexivity|]. eapply Post_keep; eauto.
+        * inv Hex. exists b. split; [reflexivity|]. apply concl_exc; auto. discriminate.
+      + (* CallParam *)
+        cbn [chk_event] in *.
+        assert (Lf : lookup fe p = option_map abs_fn (lookup (fenv fr) p)) by (rewrite <- (proj2 (proj2 Ht)); apply lookup_map).
+        rewrite Lf in Hok, Hcalls |- *. clear Lf.
+        destruct (lookup (fenv fr) p) as [c|] eqn:Lp; cbn [option_map] in *; [|discriminate].
+        destruct c; cbn [abs_fn] in *; try discriminate.
+        * inv Hex. exists (obsv b (OCall s)). split; [reflexivity|]. nodd cl. apply Rel_obsv; assumption.
+        * destruct (find_fn api c) as [g|] eqn:Hf; [|discriminate]. cbn [rok rcalls rpost] in *.
+          destruct (exec n (fbody g) (mkframe cap [] []) (obsv a (OCall s))) as [[[r frr] a1]|] eqn:Ea; [|discriminate]. inv Hex.
+          destruct (HE _ g (mkframe cap [] []) (obsv a (OCall s)) (obsv b (OCall s)) r frr a' (Hcalls _ (or_introl eq_refl)) Hf)
+            as [b' [Eb [C1 [C2 C3]]]]; try assumption.
+          { unfold frame_matches; cbn. auto. }
+          { split; cbn; [|intros ? ? []]. apply (proj2 Ho p (CFClos c cap)). apply lookup_In. assumption. }
+          { apply Rel_obsv; assumption. }
+          { intros l k Hm. cbn in Hm. unfold memk in Hm. cbn in Hm. discriminate. }
+          rewrite Eb. exists b'. split; [reflexivity|]. eapply Post_keep; eauto.
+    - (* Seq *)
+      cbn [chk] in *. cbn [rok rcalls rpost] in *. apply andb_true_iff in Hok. destruct Hok as [Hok1 Hok2].
+      destruct (exec (Datatypes.S n) c1 fr a) as [[[f1 fr1] a1]|] eqn:E1; [|discriminate].
+      destruct (IH1 env de fe cl fr a b f1 fr1 a1 Hok1 (fun e He => Hcalls e (in_or_app _ _ _ (or_introl He))) Ht Ho HR Hag E1)
+        as [b1 [Eb1 C1]]. rewrite Eb1.
+      destruct f1; try (inv Hex; exists b1; split; [reflexivity|]; eapply Concl_noFN; [discriminate | exact C1]).
+      destruct C1 as [T1 [O1 [R1 [S1 [U1 P1]]]]]. destruct (P1 eq_refl) as [cl1 [Ep A1]]. rewrite Ep in *.
+      destruct (IH2 env de fe cl1 fr1 a1 b1 f fr' a' Hok2 (fun e He => Hcalls e (in_or_app _ _ _ (or_intror He))) T1 O1 R1 A1 Hex)
+        as [b' [Eb C2]]. exists b'. split; [assumption|].
+      destruct C2 as [T2 [O2 [R2 [S2 [U2 P2]]]]]. csplit; try assumption.
+      + eapply stable_trans; eauto. + eapply outside_trans; eauto.
+    - (* If *)
+      cbn [chk] in *. cbn [rok rcalls rpost] in *. apply andb_true_iff in Hok. destruct Hok as [Hok1 Hok2].
+      cbv zeta in *. rewrite <- (r_hist _ _ HR). destruct (decide s (hist a)) eqn:Ed.
+      + destruct (IH1 env de fe cl fr _ (obsv b (ODec true)) f fr' a' Hok1 (fun e He => Hcalls e (in_or_app _ _ _ (or_introl He))) Ht Ho
+                    (Rel_obsv _ _ _ HR) Hag Hex) as [b' [Eb C]].
+        exists b'. split; [assumption|]. destruct C as [T1 [O1 [R1 [S1 [U1 P1]]]]]. csplit; try assumption.
+        intros Hf. destruct (P1 Hf) as [x [Ex Ax]]. rewrite Ex.
+        destruct (join (Some x) (rpost (chk U api env de fe c2 (Some cl)))) as [z|] eqn:Ej.
+        * exists z. split; [reflexivity|]. eapply agree_join_l; eauto.
+        * destruct (rpost (chk U api env de fe c2 (Some cl))); discriminate.
+      + destruct (IH2 env de fe cl fr _ (obsv b (ODec false)) f fr' a' Hok2 (fun e He => Hcalls e (in_or_app _ _ _ (or_intror He))) Ht Ho
+                    (Rel_obsv _ _ _ HR) Hag Hex) as [b' [Eb C]].
+        exists b'. split; [assumption|]. destruct C as [T1 [O1 [R1 [S1 [U1 P1]]]]]. csplit; try assumption.
+        intros Hf. destruct (P1 Hf) as [y [Ey Ay]]. rewrite Ey.
+        destruct (join (rpost (chk U api env de fe c1 (Some cl))) (Some y)) as [z|] eqn:Ej.
+        * exists z. split; [reflexivity|]. eapply agree_join_r; eauto.
+        * destruct (rpost (chk U api env de fe c1 (Some cl))); discriminate.
+    - (* Loop *)
+      pose proof Hok as Hok'. pose proof Hcalls as Hcalls'.
+      cbn [chk] in Hok, Hcalls |- *. cbn [rok rcalls rpost] in *.
+      cbv zeta in *. rewrite <- (r_hist _ _ HR). destruct (decide s (hist a)) eqn:Ed.
+      + destruct (exec (Datatypes.S n) c fr (obsv a (ODec true))) as [[[f1 fr1] a1]|] eqn:E1; [|discriminate].
+        destruct (IH env de fe cl fr _ (obsv b (ODec true)) f1 fr1 a1 Hok Hcalls Ht Ho (Rel_obsv _ _ _ HR) Hag E1) as [b1 [Eb1 C1]].
+        rewrite Eb1. destruct C1 as [T1 [O1 [R1 [S1 [U1 P1]]]]].
+        assert (A1 : agree cl a1 b1) by (eapply agree_stable; eauto).
+        assert (Hrec : forall f fr' a', exec n (Loop s c) fr1 a1 = Some (f, fr', a') ->
+                  exists b', exec n (Loop s c) fr1 b1 = Some (f, fr', b') /\
+                             Concl env de fe (mkres (rok (chk U api env de fe c (Some cl))) (Some cl)
+                                                (rcalls (chk U api env de fe c (Some cl))) (rerr (chk U api env de fe c (Some cl))))
+                                   a b f fr' a' b').
+        { intros g0 fr0 a0 Hx. destruct (IHn (Loop s c) env de fe cl fr1 a1 b1 g0 fr0 a0 Hok' Hcalls' T1 O1 R1 A1 Hx) as [b' [Eb C]].
+          exists b'. split; [assumption|]. cbn [chk] in C. destruct C as [T2 [O2 [R2 [S2 [U2 P2]]]]]. csplit; try assumption.
+          - eapply stable_trans; eauto. - eapply outside_trans; eauto. }
+        destruct f1.
+        * apply Hrec; assumption.
+        * inv Hex. exists b1. split; [reflexivity|]. eapply Post_keep; eauto.
+        * apply Hrec; assumption.
+        * inv Hex. exists b1. split; [reflexivity|]. csplit; try assumption. discriminate.
+        * inv Hex. exists b1. split; [reflexivity|]. csplit; try assumption. discriminate.
+      + inv Hex. exists (obsv b (ODec false)). split; [reflexivity|]. nodd cl. apply Rel_obsv; assumption.
+    - inv Hex. exists b. split; [reflexivity|]. apply concl_exc; auto. discriminate.
+    - inv Hex. exists b. split; [reflexivity|]. apply concl_exc; auto. discriminate.
+    - inv Hex. exists b. split; [reflexivity|]. apply concl_exc; auto. discriminate.
+    - inv Hex. exists b. split; [reflexivity|]. apply concl_exc; auto. discriminate.
+    - (* Try *)
+      cbn [chk] in *. cbn [rok rcalls rpost] in *. apply andb_true_iff in Hok. destruct Hok as [Hok1 Hok2].
+      destruct (exec (Datatypes.S n) c1 fr a) as [[[f1 fr1] a1]|] eqn:E1; [|discriminate].
+      destruct (IH1 env de fe cl fr a b f1 fr1 a1 Hok1 (fun e He => Hcalls e (in_or_app _ _ _ (or_introl He))) Ht Ho HR Hag E1)
+        as [b1 [Eb1 C1]]. rewrite Eb1. destruct C1 as [T1 [O1 [R1 [S1 [U1 P1]]]]].
+      assert (Hl : f1 <> FExc -> exists b', Some (f1, fr1, b1) = Some (f1, fr1, b') /\
+                Concl env de fe (mkres true (join (rpost (chk U api env de fe c1 (Some cl))) (rpost (chk U api env de fe c2 (Some cl))))
+                                   (rcalls (chk U api env de fe c1 (Some cl)) ++ rcalls (chk U api env de fe c2 (Some cl)))
+                                   (rerr (chk U api env de fe c1 (Some cl)) ++ rerr (chk U api env de fe c2 (Some cl))))
+                      a b f1 fr1 a1 b').
+      { intros _. exists b1. split; [reflexivity|]. csplit; try assumption. cbn [rpost].
+        intros Hf. destruct (P1 Hf) as [x [Ex Ax]]. rewrite Ex.
+        destruct (join (Some x) (rpost (chk U api env de fe c2 (Some cl)))) as [z|] eqn:Ej.
+        * exists z. split; [reflexivity|]. eapply agree_join_l; eauto.
+        * destruct (rpost (chk U api env de fe c2 (Some cl))); discriminate. }
+      destruct f1; try (inv Hex; apply Hl; discriminate).
+      assert (A1 : agree cl a1 b1) by (eapply agree_stable; eauto).
+      destruct (IH2 env de fe cl fr1 a1 b1 f fr' a' Hok2 (fun e He => Hcalls e (in_or_app _ _ _ (or_intror He))) T1 O1 R1 A1 Hex)
+        as [b' [Eb C2]]. exists b'. split; [assumption|]. destruct C2 as [T2 [O2 [R2 [S2 [U2 P2]]]]]. csplit; try assumption.
+      + eapply stable_trans; eauto. + eapply outside_trans; eauto.
+      + intros Hf. destruct (P2 Hf) as [y [Ey Ay]]. cbn [rpost]. rewrite Ey.
+        destruct (join (rpost (chk U api env de fe c1 (Some cl))) (Some y)) as [z|] eqn:Ej.
+        * exists z. split; [reflexivity|]. eapply agree_join_r; eauto.
+        * destruct (rpost (chk U api env de fe c1 (Some cl))); discriminate.
+  Qed.
+
+  Lemma sim_all n : Sim n.
+  Proof.
+    induction n as [|n IH]; [|apply sim_step; assumption].
+    intros c env de fe cl fr a b f fr' a' _ _ _ _ _ _ H. cbn in H. discriminate.
+  Qed.
+
+  Lemma enter_all n : Enter n.
+  Proof. apply Sim_Enter, sim_all. Qed.
 End Sim.
+
+(* ------------------------------------------------------------------------------------------------ *)
+(* Part 3: the theorems about entry points                                                           *)
+(* ------------------------------------------------------------------------------------------------ *)
+
+Lemma names_unique_find api g : names_unique api = true -> In g api -> find_fn api (fname g) = Some g.
+Proof.
+  unfold names_unique. induction api as [|g0 r IH]; intros Hu Hin; [contradiction|].
+  apply andb_true_iff in Hu. destruct Hu as [H1 H2]. cbn [find_fn]. destruct Hin as [->|Hin].
+  - rewrite String.eqb_refl. reflexivity.
+  - destruct (String.eqb (fname g) (fname g0)) eqn:E.
+    + apply negb_true_iff in H1. assert (X : existsb (fun h => String.eqb (fname g0) (fname h)) r = true).
+      { apply existsb_exists. exists g. split; [assumption|]. rewrite String.eqb_sym. assumption. }
+      congruence.
+    + apply IH; assumption.
+Qed.
+
+Lemma entries_ccl api exempt e : In e (entries api exempt) -> ccl e = [].
+Proof.
+  unfold entries. rewrite in_flat_map. intros [g [_ H]]. unfold entries_of in H. destruct (fexported g); [|contradiction].
+  apply in_flat_map in H. destruct H as [se [_ H]]. apply in_map_iff in H. destruct H as [fe [<- _]]. reflexivity.
+Qed.
+
+Lemma entries_intro api exempt g se fe :
+  In g api -> fexported g = true -> In se (seed_modes g) ->
+  (fe = fe_user g \/ (fe = fe_default g /\ lookup exempt (fname g) = None)) ->
+  In (mkctx (fname g) se (own_de g) fe []) (entries api exempt).
+Proof.
+  intros Hg He Hse Hfe. unfold entries. apply in_flat_map. exists g. split; [assumption|].
+  unfold entries_of. rewrite He. apply in_flat_map. exists se. split; [assumption|]. apply in_map_iff. exists fe.
+  split; [reflexivity|]. destruct Hfe as [->|[-> Hx]].
+  - destruct (lookup exempt (fname g)); right; left; reflexivity.
+  - rewrite Hx. left; reflexivity.
+Qed.
+
+Lemma entry_cbs_abs exempt g cbs : entry_cbs exempt g cbs ->
+  let fe := map (fun pc => (fst pc, abs_fn (snd pc))) cbs in
+  (fe = fe_user g \/ (fe = fe_default g /\ lookup exempt (fname g) = None)) /\
+  forall p c, In (p, c) cbs -> forall k, ~ cfn_passes c k.
+Proof.
+  intros [->|[-> Hx]]; cbn zeta; split.
+  - left. unfold user_cbs, fe_user. rewrite map_map. reflexivity.
+  - unfold user_cbs. intros p c H k. apply in_map_iff in H. destruct H as [pd [E _]]. inversion E; subst. intros [].
+  - right. split; [|assumption]. unfold default_cbs, fe_default, afn_of_fdef. rewrite map_map. reflexivity.
+  - unfold default_cbs. intros p c H k. apply in_map_iff in H. destruct H as [[q d] [E _]]. inversion E; subst.
+    destruct d; cbn; try tauto. intros [x []].
+Qed.
+
+Section Top.
+  Variables Sg V : Type.
+  Variable draw : nat -> list (obs V) -> Sg -> V * Sg.
+  Variable decide : nat -> list (obs V) -> bool.
+  Variable wval : nat -> string -> list (obs V) -> option V.
+  Variable wany : list (obs V) -> (string -> option V) -> string -> option V.
+  Variable init : Z -> Sg.
+  Variable ent_draw : Sg -> Sg * Sg.
+  Variable clock : Sg -> V * Sg.
+  Variable U : dloc -> list string.
+  Variable api : list fn.
+  Variable exempt : list (string * string).
+  Variable fuel : nat.
+  Hypothesis Hall : check_all U api exempt fuel = true.
+
+  Local Notation state := (state Sg V).
+  Local Notation hist := (hist Sg V).
+  Local Notation lg := (lg Sg V).
+  Local Notation gs := (gs Sg V).
+  Local Notation ent := (ent Sg V).
+  Local Notation ext := (ext Sg V).
+  Local Notation exec := (exec Sg V draw decide wval wany init ent_draw clock U api).
+  Local Notation confined := (confined Sg V U).
+
+  Lemma check_all_table : exists t, tbl_ok U api t = true /\ forall e, In e (entries api exempt) -> In e t.
+  Proof.
+    unfold check_all in Hall. destruct (reach U api fuel (entries api exempt) []) as [t|]; [|discriminate].
+    apply andb_true_iff in Hall. destruct Hall as [H _]. apply andb_true_iff in H. destruct H as [H1 H2].
+    exists t. split; [assumption|]. intros e He. apply memc_In. exact (proj1 (forallb_forall _ _) H2 e He).
+  Qed.
+
+  Lemma frame_ok_passed fr : frame_ok (passed fr) fr.
+  Proof.
+    split.
+    - intros x v Hin. destruct v; cbn; auto. left. exists x. assumption.
+    - intros p c Hin. destruct c; cbn; auto. intros x v Hx. destruct v; cbn; auto. right. exists p, (CFClos c cap).
+      split; [assumption|]. cbn. exists x. assumption.
+  Qed.
+
+  Lemma Rel_sym P a b : Rel Sg V U P a b -> Rel Sg V U P b a.
+  Proof. intros [H1 H2 H3 H4 H5]. constructor; auto. intros k Hk. symmetry. auto. Qed.
+
+  (* THE THEOREM.  e: an entry context of an exported function (every combination of integer seeds / generator
+     objects and of user / default callbacks is one); fr: any concrete frame that instantiates it; w1, w2: two worlds
+     that agree only on what is handed to the call.  Then the two runs (same fuel) end with the same flag and frame,
+     have observed exactly the same history (every draw, every read of a default dictionary, every decision) ...,
+     have not touched the global stream, OS entropy, nor any generator object that was not handed over, and leave
+     the handed-over generator objects in the same state. *)
+  Theorem noninterference :
+    forall e g, In e (entries api exempt) -> find_fn api (cf e) = Some g ->
+    forall fr, frame_matches e fr ->
+    forall w1 w2, same_inputs Sg V fr w1 w2 -> confined w1 -> confined w2 ->
+    forall n f fr' w1', exec n (fbody g) fr w1 = Some (f, fr', w1') ->
+    exists w2', exec n (fbody g) fr w2 = Some (f, fr', w2')
+      /\ hist w1' = hist w2' /\ lg w1' = lg w2'
+      /\ untouched_outside Sg V (passed fr) w1 w1' /\ untouched_outside Sg V (passed fr) w2 w2'
+      /\ (forall k, passed fr k -> ext w1' k = ext w2' k)
+      /\ no_new_difference Sg V w1 w2 w1' w2'.
+  Proof.
+    intros e g He Hg fr Hm w1 w2 [Hh [Hl Hx]] Hc1 Hc2 n f fr' w1' Hex.
+    destruct check_all_table as [t [Ht Hin]].
+    assert (HR : Rel Sg V U (passed fr) w1 w2) by (constructor; assumption).
+    assert (Hag : forall a b, agree Sg V (ccl e) a b).
+    { intros a b l k Hk. rewrite (entries_ccl _ _ _ He) in Hk. unfold memk in Hk. cbn in Hk. discriminate. }
+    destruct (enter_all Sg V draw decide wval wany init ent_draw clock U api (passed fr) t Ht n e g fr w1 w2 f fr' w1'
+                (Hin e He) Hg Hm (frame_ok_passed fr) HR (Hag _ _) Hex) as [w2' [E2 [R' [S' O1]]]].
+    destruct (enter_all Sg V draw decide wval wany init ent_draw clock U api (passed fr) t Ht n e g fr w2 w1 f fr' w2'
+                (Hin e He) Hg Hm (frame_ok_passed fr) (Rel_sym _ _ _ HR) (Hag _ _) E2) as [w1'' [_ [_ [_ O2]]]].
+    exists w2'. destruct R' as [R1 R2 R3 _ _]. repeat (split; [assumption|]). assumption.
+  Qed.
+
+  (* no generator object is handed over (integer seeds, or a function without a seed): nothing of the world is touched *)
+  Corollary noninterference_closed :
+    forall e g, In e (entries api exempt) -> find_fn api (cf e) = Some g ->
+    forall fr, frame_matches e fr -> (forall k, ~ passed fr k) ->
+    forall w1 w2, hist w1 = hist w2 -> lg w1 = lg w2 -> confined w1 -> confined w2 ->
+    forall n f fr' w1', exec n (fbody g) fr w1 = Some (f, fr', w1') ->
+    exists w2', exec n (fbody g) fr w2 = Some (f, fr', w2')
+      /\ hist w1' = hist w2'
+      /\ (gs w1' = gs w1 /\ ent w1' = ent w1 /\ forall k, ext w1' k = ext w1 k)
+      /\ (gs w2' = gs w2 /\ ent w2' = ent w2 /\ forall k, ext w2' k = ext w2 k).
+  Proof.
+    intros e g He Hg fr Hm Hnp w1 w2 Hh Hl Hc1 Hc2 n f fr' w1' Hex.
+    assert (Hsi : same_inputs Sg V fr w1 w2).
+    { split; [assumption|]. split; [assumption|]. intros k Hk. destruct (Hnp k Hk). }
+    destruct (noninterference e g He Hg fr Hm w1 w2 Hsi Hc1 Hc2 n f fr' w1' Hex)
+      as [w2' [E [H1 [_ [[A1 [A2 A3]] [[B1 [B2 B3]] _]]]]]].
+    exists w2'. repeat split; auto.
+  Qed.
+
+  Lemma int_frame_entry g z cbs : In g api -> fexported g = true -> (fint_ok g = true \/ fseeds g = []) ->
+    entry_cbs exempt g cbs ->
+    exists e, In e (entries api exempt) /\ cf e = fname g /\ frame_matches e (int_frame g z cbs) /\
+              forall k, ~ passed (int_frame g z cbs) k.
+  Proof.
+    intros Hg He Hs Hcb. destruct (entry_cbs_abs _ _ _ Hcb) as [Hfe Hnp].
+    exists (mkctx (fname g) (map (fun x => (x, AInt)) (fseeds g)) (own_de g) (map (fun pc => (fst pc, abs_fn (snd pc))) cbs) []).
+    split; [|split; [reflexivity|split]].
+    - apply entries_intro; auto. unfold seed_modes. destruct (fseeds g) eqn:E; [left; reflexivity|].
+      destruct Hs as [->|C]; [left; reflexivity | discriminate].
+    - unfold frame_matches, int_frame; cbn. rewrite map_map. auto.
+    - intros k [[x H]|[p [c [H1 H2]]]]; cbn in *.
+      + apply in_map_iff in H. destruct H as [y [E _]]. discriminate.
+      + exact (Hnp p c H1 k H2).
+  Qed.
+
+  Lemma gen_frame_entry g ks cbs : In g api -> fexported g = true -> fseeds g <> [] ->
+    entry_cbs exempt g cbs ->
+    exists e, In e (entries api exempt) /\ cf e = fname g /\ frame_matches e (gen_frame g ks cbs) /\
+              forall k, passed (gen_frame g ks cbs) k <-> exists x, In x (fseeds g) /\ k = ks x.
+  Proof.
+    intros Hg He Hs Hcb. destruct (entry_cbs_abs _ _ _ Hcb) as [Hfe Hnp].
+    exists (mkctx (fname g) (map (fun x => (x, AGenExt)) (fseeds g)) (own_de g) (map (fun pc => (fst pc, abs_fn (snd pc))) cbs) []).
+    split; [|split; [reflexivity|split]].
+    - apply entries_intro; auto. unfold seed_modes. destruct (fseeds g) eqn:E; [contradiction|].
+      apply in_or_app. right. left. reflexivity.
+    - unfold frame_matches, gen_frame; cbn. rewrite map_map. auto.
+    - intros k. split.
+      + intros [[x H]|[p [c [H1 H2]]]]; cbn in *.
+        * apply in_map_iff in H. destruct H as [y [E Hy]]. inversion E as [[E1 E2]]. exists y. split; [assumption | congruence].
+        * destruct (Hnp p c H1 k H2).
+      + intros [x [Hx ->]]. left. exists x. cbn. apply in_map_iff. exists x. auto.
+  Qed.
+
+  (* integer seeds (or no seed parameter at all), dictionaries left at their defaults *)
+  Theorem integer_seed_deterministic :
+    forall g, In g api -> find_fn api (fname g) = Some g -> fexported g = true -> (fint_ok g = true \/ fseeds g = []) ->
+    forall (z : string -> Z) cbs, entry_cbs exempt g cbs ->
+    forall w1 w2, hist w1 = hist w2 -> lg w1 = lg w2 -> confined w1 -> confined w2 ->
+    forall n f fr' w1', exec n (fbody g) (int_frame g z cbs) w1 = Some (f, fr', w1') ->
+    exists w2', exec n (fbody g) (int_frame g z cbs) w2 = Some (f, fr', w2')
+      /\ hist w1' = hist w2'
+      /\ (gs w1' = gs w1 /\ ent w1' = ent w1 /\ forall k, ext w1' k = ext w1 k)
+      /\ (gs w2' = gs w2 /\ ent w2' = ent w2 /\ forall k, ext w2' k = ext w2 k).
+  Proof.
+    intros g Hg Hf He Hs z cbs Hcb. destruct (int_frame_entry g z cbs Hg He Hs Hcb) as [e [H1 [H2 [H3 H4]]]].
+    rewrite <- H2 in Hf. exact (noninterference_closed e g H1 Hf _ H3 H4).
+  Qed.
+
+  (* generator objects as seeds: only those objects advance, and a second object in the same state reproduces the run *)
+  Theorem generator_object_only :
+    forall g, In g api -> find_fn api (fname g) = Some g -> fexported g = true -> fseeds g <> [] ->
+    forall (ks : string -> nat) cbs, entry_cbs exempt g cbs ->
+    forall w1 w2, hist w1 = hist w2 -> lg w1 = lg w2 -> (forall x, In x (fseeds g) -> ext w1 (ks x) = ext w2 (ks x)) ->
+    confined w1 -> confined w2 ->
+    forall n f fr' w1', exec n (fbody g) (gen_frame g ks cbs) w1 = Some (f, fr', w1') ->
+    exists w2', exec n (fbody g) (gen_frame g ks cbs) w2 = Some (f, fr', w2')
+      /\ hist w1' = hist w2'
+      /\ (forall x, In x (fseeds g) -> ext w1' (ks x) = ext w2' (ks x))
+      /\ (gs w1' = gs w1 /\ ent w1' = ent w1 /\ forall k, (forall x, In x (fseeds g) -> k <> ks x) -> ext w1' k = ext w1 k)
+      /\ (gs w2' = gs w2 /\ ent w2' = ent w2 /\ forall k, (forall x, In x (fseeds g) -> k <> ks x) -> ext w2' k = ext w2 k).
+  Proof.
+    intros g Hg Hf He Hs ks cbs Hcb w1 w2 Hh Hl Hx Hc1 Hc2 n f fr' w1' Hex.
+    destruct (gen_frame_entry g ks cbs Hg He Hs Hcb) as [e [H1 [H2 [H3 H4]]]]. rewrite <- H2 in Hf.
+    assert (Hsi : same_inputs Sg V (gen_frame g ks cbs) w1 w2).
+    { split; [assumption|]. split; [assumption|]. intros k Hk. apply H4 in Hk. destruct Hk as [x [Hk ->]]. auto. }
+    destruct (noninterference e g H1 Hf _ H3 w1 w2 Hsi Hc1 Hc2 n f fr' w1' Hex)
+      as [w2' [E [A [_ [[A1 [A2 A3]] [[B1 [B2 B3]] [C _]]]]]]].
+    exists w2'. split; [assumption|]. split; [assumption|]. split; [|split].
+    - intros x Hk. apply C. apply H4. eauto.
+    - split; [assumption|]. split; [assumption|]. intros k Hk. apply A3. intros Hp. apply H4 in Hp. destruct Hp as [x [Hp1 Hp2]]. exact (Hk x Hp1 Hp2).
+    - split; [assumption|]. split; [assumption|]. intros k Hk. apply B3. intros Hp. apply H4 in Hp. destruct Hp as [x [Hp1 Hp2]]. exact (Hk x Hp1 Hp2).
+  Qed.
+End Top.
+
+(* the same theorems with the premises discharged from two boolean facts (both are closed computations for the
+   regenerated skeleton): the checker accepts everything, and function names are unique *)
+Lemma api_integer_seed Sg V draw decide wval wany init ent_draw clock U api exempt fuel :
+  check_all U api exempt fuel = true -> names_unique api = true ->
+  forall g, In g api -> fexported g = true -> fint_ok g = true ->
+  forall (z : string -> Z) cbs, entry_cbs exempt g cbs ->
+  forall w1 w2 : state Sg V, hist Sg V w1 = hist Sg V w2 -> lg Sg V w1 = lg Sg V w2 -> confined Sg V U w1 -> confined Sg V U w2 ->
+  forall n f fr' w1', exec Sg V draw decide wval wany init ent_draw clock U api n (fbody g) (int_frame g z cbs) w1 = Some (f, fr', w1') ->
+  exists w2', exec Sg V draw decide wval wany init ent_draw clock U api n (fbody g) (int_frame g z cbs) w2 = Some (f, fr', w2')
+    /\ hist Sg V w1' = hist Sg V w2'
+    /\ (gs Sg V w1' = gs Sg V w1 /\ ent Sg V w1' = ent Sg V w1 /\ forall k, ext Sg V w1' k = ext Sg V w1 k)
+    /\ (gs Sg V w2' = gs Sg V w2 /\ ent Sg V w2' = ent Sg V w2 /\ forall k, ext Sg V w2' k = ext Sg V w2 k).
+Proof.
+  intros Hall Hu g Hg He Hi. apply integer_seed_deterministic with (exempt := exempt) (fuel := fuel); auto.
+  apply names_unique_find; auto.
+Qed.
+
+Lemma api_unseeded Sg V draw decide wval wany init ent_draw clock U api exempt fuel :
+  check_all U api exempt fuel = true -> names_unique api = true ->
+  forall g, In g api -> fexported g = true -> fseeds g = [] ->
+  forall cbs, entry_cbs exempt g cbs ->
+  forall w1 w2 : state Sg V, hist Sg V w1 = hist Sg V w2 -> lg Sg V w1 = lg Sg V w2 -> confined Sg V U w1 -> confined Sg V U w2 ->
+  forall n f fr' w1', exec Sg V draw decide wval wany init ent_draw clock U api n (fbody g) (noseed_frame g cbs) w1 = Some (f, fr', w1') ->
+  exists w2', exec Sg V draw decide wval wany init ent_draw clock U api n (fbody g) (noseed_frame g cbs) w2 = Some (f, fr', w2')
+    /\ hist Sg V w1' = hist Sg V w2'
+    /\ (gs Sg V w1' = gs Sg V w1 /\ ent Sg V w1' = ent Sg V w1 /\ forall k, ext Sg V w1' k = ext Sg V w1 k)
+    /\ (gs Sg V w2' = gs Sg V w2 /\ ent Sg V w2' = ent Sg V w2 /\ forall k, ext Sg V w2' k = ext Sg V w2 k).
+Proof.
+  intros Hall Hu g Hg He Hs cbs Hcb.
+  assert (E : noseed_frame g cbs = int_frame g (fun _ => 0%Z) cbs) by (unfold noseed_frame, int_frame; rewrite Hs; reflexivity).
+  rewrite E. apply integer_seed_deterministic with (exempt := exempt) (fuel := fuel); auto.
+  apply names_unique_find; auto.
+Qed.
+
+Lemma api_generator_object Sg V draw decide wval wany init ent_draw clock U api exempt fuel :
+  check_all U api exempt fuel = true -> names_unique api = true ->
+  forall g, In g api -> fexported g = true -> fseeds g <> [] ->
+  forall (ks : string -> nat) cbs, entry_cbs exempt g cbs ->
+  forall w1 w2 : state Sg V, hist Sg V w1 = hist Sg V w2 -> lg Sg V w1 = lg Sg V w2 ->
+  (forall x, In x (fseeds g) -> ext Sg V w1 (ks x) = ext Sg V w2 (ks x)) ->
+  confined Sg V U w1 -> confined Sg V U w2 ->
+  forall n f fr' w1', exec Sg V draw decide wval wany init ent_draw clock U api n (fbody g) (gen_frame g ks cbs) w1 = Some (f, fr', w1') ->
+  exists w2', exec Sg V draw decide wval wany init ent_draw clock U api n (fbody g) (gen_frame g ks cbs) w2 = Some (f, fr', w2')
+    /\ hist Sg V w1' = hist Sg V w2'
+    /\ (forall x, In x (fseeds g) -> ext Sg V w1' (ks x) = ext Sg V w2' (ks x))
+    /\ (gs Sg V w1' = gs Sg V w1 /\ ent Sg V w1' = ent Sg V w1 /\
+        forall k, (forall x, In x (fseeds g) -> k <> ks x) -> ext Sg V w1' k = ext Sg V w1 k)
+    /\ (gs Sg V w2' = gs Sg V w2 /\ ent Sg V w2' = ent Sg V w2 /\
+        forall k, (forall x, In x (fseeds g) -> k <> ks x) -> ext Sg V w2' k = ext Sg V w2 k).
+Proof.
+  intros Hall Hu g Hg He Hs. apply generator_object_only with (exempt := exempt) (fuel := fuel); auto.
+  apply names_unique_find; auto.
+Qed.
